@@ -8,38 +8,28 @@ Open Scope N_scope.
 Arguments print_dec : simpl never.
 
 (* ---------- fmtp keys and values that survive "k=v; k=v" ---------- *)
-Definition wf_key (k : str) : Prop := no_char 59 k /\ no_char 61 k /\ hd_ok (N.eqb 32) k = true.
+Definition wf_key (k : str) : Prop := no_char 59 k /\ no_char 61 k /\ hd_ok is_space k = true.
 Definition wf_val (v : str) : Prop := no_char 59 v /\ last_ok is_space v = true.
 Definition wf_kv (kv : str * str) : Prop := wf_key (fst kv) /\ wf_val (snd kv).
 
-Lemma is_space_32 c : (c =? 32) = true -> is_space c = true.
-Proof. intros H. apply N.eqb_eq in H. subst. reflexivity. Qed.
-
-Lemma last_ok_weaken v : last_ok is_space v = true -> last_ok (N.eqb 32) v = true.
+Lemma kv_text_trim kv : wf_kv kv -> trim_space (kv_text kv) = kv_text kv.
 Proof.
-  unfold last_ok, hd_ok. destruct (rev v) as [|x t]; [reflexivity|].
-  destruct (N.eqb_spec 32 x) as [<-|]; [intros H; exact H|reflexivity].
-Qed.
-
-Lemma kv_text_trim kv : wf_kv kv -> trim_sp (kv_text kv) = kv_text kv.
-Proof.
-  intros [(K1 & K2 & K3) (V1 & V2)]. unfold trim_sp, kv_text. apply trim_by_id.
+  intros [(K1 & K2 & K3) (V1 & V2)]. unfold trim_space, kv_text. apply trim_by_id.
   - destruct (fst kv) as [|x k]; [reflexivity|]. exact K3.
   - destruct (snd kv) as [|y v] eqn:Ev.
     + rewrite app_nil_r, last_ok_app by discriminate. reflexivity.
-    + rewrite app_assoc, last_ok_app by discriminate. apply last_ok_weaken. exact V2.
+    + rewrite app_assoc, last_ok_app by discriminate. exact V2.
 Qed.
 
-Lemma kv_text_lead kv : wf_kv kv -> trim_sp (sp ++ kv_text kv) = kv_text kv.
+Lemma kv_text_lead kv : wf_kv kv -> trim_space (sp ++ kv_text kv) = kv_text kv.
 Proof.
-  intros H. assert (E := kv_text_trim kv H). unfold trim_sp in *.
-  destruct H as [(K1 & K2 & K3) (V1 & V2)].
+  intros H. destruct H as [(K1 & K2 & K3) (V1 & V2)]. unfold trim_space.
   apply trim_by_lead.
   - repeat constructor.
   - unfold kv_text. destruct (fst kv) as [|x k]; [reflexivity|]. exact K3.
   - unfold kv_text. destruct (snd kv) as [|y v] eqn:Ev.
     + rewrite app_nil_r, last_ok_app by discriminate. reflexivity.
-    + rewrite app_assoc, last_ok_app by discriminate. apply last_ok_weaken. exact V2.
+    + rewrite app_assoc, last_ok_app by discriminate. exact V2.
   - unfold kv_text. destruct (fst kv); discriminate.
 Qed.
 
@@ -56,7 +46,7 @@ Lemma kv_text_nonempty kv : kv_text kv <> [].
 Proof. unfold kv_text. destruct (fst kv); discriminate. Qed.
 
 Definition fmtp_step (m : list (str * str)) (kv : str) : list (str * str) :=
-  let kv' := trim_sp kv in
+  let kv' := trim_space kv in
   match kv' with
   | [] => m
   | _ => match cut 61 kv' with
@@ -69,7 +59,7 @@ Lemma decode_fmtp_unfold enc : decode_fmtp enc = fold_left fmtp_step (split1 59 
 Proof. reflexivity. Qed.
 
 Lemma fmtp_step_kv m kv piece :
-  wf_kv kv -> trim_sp piece = kv_text kv -> ~ In (to_lower (fst kv)) (map fst m) ->
+  wf_kv kv -> trim_space piece = kv_text kv -> ~ In (to_lower (fst kv)) (map fst m) ->
   fmtp_step m piece = m ++ [(to_lower (fst kv), snd kv)].
 Proof.
   intros Hkv Hp Hnin. unfold fmtp_step. rewrite Hp.
@@ -79,7 +69,7 @@ Qed.
 
 Lemma fold_fmtp_pieces l : forall m pieces,
   Forall wf_kv l ->
-  Forall2 (fun kv piece => trim_sp piece = kv_text kv) l pieces ->
+  Forall2 (fun kv piece => trim_space piece = kv_text kv) l pieces ->
   NoDup (map fst m ++ map fst (lower_keys l)) ->
   fold_left fmtp_step pieces m = m ++ lower_keys l.
 Proof.
